@@ -354,12 +354,55 @@ func Guard(f func()) (panicked bool, msg string, stack string) {
 // process. It is a trigger, not a verdict: what decides is the state found.
 var LiveTrigger = 10 * time.Second
 
+// blockedState reports whether the header of a goroutine in a stack dump
+// (`goroutine 7 [chan send, 2 minutes]:`) shows a goroutine that waits for
+// another goroutine: for a lock, a channel, a condition or a wait group.
+// Running, runnable, sleeping goroutines and those in a system call or waiting
+// for I/O can still make progress by themselves.
+func blockedState(head string) bool {
+	i, j := strings.Index(head, "["), strings.Index(head, "]")
+	if i < 0 || j < i {
+		return false
+	}
+	st := head[i+1 : j]
+	for _, p := range []string{"sync.", "semacquire", "chan send", "chan receive", "select"} {
+		if strings.HasPrefix(st, p) {
+			return true
+		}
+	}
+	return false
+}
+
+// blockedInLib reports whether the goroutine g of a stack dump waits for
+// another goroutine in a wait started by code of llir/llvm itself: the first
+// frame that is not of the runtime or of package sync belongs to the library (a
+// destination or hook of the harness that blocks underneath the library's
+// frames is the harness's business and is not judged).
+func blockedInLib(g string) bool {
+	lines := strings.Split(g, "\n")
+	if len(lines) == 0 || !blockedState(lines[0]) {
+		return false
+	}
+	for _, l := range lines[1:] {
+		if l == "" || l[0] == '\t' || strings.HasPrefix(l, "created by") {
+			continue
+		}
+		if strings.HasPrefix(l, "runtime.") || strings.HasPrefix(l, "sync.") || strings.HasPrefix(l, "sync/") || strings.HasPrefix(l, "internal/") {
+			continue
+		}
+		return strings.HasPrefix(l, "github.com/llir/llvm/")
+	}
+	return false
+}
+
 // GuardLive runs f like Guard, in a goroutine of its own, and recognises a call
-// that can never return: the goroutine running f is waiting for a lock inside
-// llir/llvm, its stack is the same in two looks two seconds apart, and every
-// other goroutine that is inside llir/llvm is waiting for a lock as well, so
-// nobody is left who could release one (the library's locks are taken and
-// released by library code only). hung is then true and witness holds the
+// that can never return: the goroutine running f is inside llir/llvm waiting
+// for another goroutine (a lock, a channel, a wait group), its stack is the
+// same in two looks two seconds apart, and every other goroutine that is inside
+// llir/llvm waits in the same way, so nobody is left who could let it go on
+// (the library's locks and channels are used by library code only; a goroutine
+// that sleeps, runs, or is in a system call or waiting for I/O counts as able
+// to make progress). hung is then true and witness holds the
 // stack; the goroutine is abandoned. Any other state (a slow machine, a
 // blocked destination) is waited for: the driver's case watchdog, whose firing
 // is inconclusive, bounds that.
@@ -381,15 +424,14 @@ func GuardLive(f func()) (panicked bool, msg string, stack string, hung bool, wi
 			if i := strings.Index(g, "\n"); i >= 0 {
 				head = g[:i]
 			}
-			waits := strings.Contains(head, "sync.Mutex.Lock") || strings.Contains(head, "sync.RWMutex") || strings.Contains(head, "semacquire")
 			inLib := strings.Contains(g, "github.com/llir/llvm/")
 			switch {
 			case strings.Contains(g, "fw.GuardLive.func1"):
-				if waits && inLib {
+				if blockedInLib(g) {
 					// drop the header (it carries the waiting time) so that two looks compare
 					mine = g[len(head):]
 				}
-			case inLib && !waits:
+			case inLib && !blockedInLib(g):
 				othersFree = true
 			}
 		}
